@@ -14,6 +14,7 @@
 (*             max  : dynamic-macro-max-presses,                           *)
 (*             recorded : BOOLEAN (replay delay behaviour),                *)
 (*             red  : rapid-event-delay (default 5),                       *)
+(*             live : liveness bound, stepper calls per replayed event,    *)
 (*             gcap : cap of the recorded gaps (>= 2 and > T, or 0 when    *)
 (*                    no gap is ever read) ]                              *)
 (*                                                                         *)
@@ -52,8 +53,9 @@
 EXTENDS Obs
 Ref == INSTANCE P_C04
 
-EndCost == 5         \* after the end of a nested macro the replay pauses 5 ticks in both behaviours (Appendix A)
-ConstPace == 5       \* `constant` replay delay behaviour: one event per 5 ticks (Appendix A)
+\* The pace of the `constant` delay behaviour and the pause after the end of a nested macro are implementation
+\* constants the statement does not fix: there only order and content are judged, plus a liveness bound of p.live
+\* stepper calls per replayed event.  With `recorded` delays the replay must reproduce the typed gaps exactly.
 
 Lookup(tab, c) == LET I == {i \in DOMAIN tab : tab[i].c = c} IN
                   IF I = {} THEN <<>> ELSE <<tab[CHOOSE i \in I : TRUE]>>
@@ -71,7 +73,8 @@ MonInit(p) ==
     mac |-> <<>>,      \* stored macros Seq([id, evs, rel, late]); rel = keys still down (released at the end, any order)
     lastSaved |-> 0 - 1,   \* id saved by the latest control key press (-1: none)
     repLate |-> FALSE, \* the expected replay involves a macro marked late
-    anch |-> 0 - 1,    \* pacing of the replay: schedule offset of the first timed output seen (-1 none yet, -2 not judged)
+    anch |-> 0 - 1,    \* pacing of the replay (recorded delays): schedule offset of the first timed output of the current
+                       \* stretch (-1 none yet, -2 not judged); a stretch ends at the end of a nested macro
     rclk |-> 0,        \* stepper calls since that output
     exp |-> <<>>,      \* expected OS events not yet seen: <<"o", ev>> in order | <<"s", set of release events>>
     replaying |-> FALSE, budget |-> 0,
@@ -176,7 +179,7 @@ RelAll(ref, S) == IF S = {} THEN ref
 \* Pacing (stepper calls; Appendix A): the replay hands one event per call to kanata with recorded delays (the
 \* recorded gap runs as extra ticks inside the call, so an event followed by a gap of 2 or more ticks shows its
 \* output in the call that handed it over, otherwise in the next one), one event per 5 calls with constant delays.
-EvCost(p) == IF p.recorded THEN 1 ELSE ConstPace
+EvCost(p) == 1
 EvLag(p, ev) == IF p.recorded /\ ev.g >= 2 THEN 0 ELSE 1
 
 \* the OS output of typing `items` from reference state `ref`: [ref, out, ok]; out items <<"o", event, O>> (O = the
@@ -185,7 +188,8 @@ RECURSIVE Typing(_, _, _, _, _)
 Typing(p, ref, items, F, timed) ==
   IF items = <<>> THEN [ref |-> ref, out |-> <<>>, ok |-> TRUE]
   ELSE LET it == Head(items) IN
-    IF it[1] = "m" THEN Typing(p, ref, Tail(items), F + EndCost, timed)
+    IF it[1] = "m"       \* the pause after a nested macro is not fixed: a new stretch begins
+    THEN LET t == Typing(p, ref, Tail(items), 0, timed) IN [t EXCEPT !.out = <<<<"a">>>> \o @]
     ELSE IF it[1] = "s"
     THEN LET r1 == RelAll(ref, it[2])
              ups == {<<"u", k>> : k \in SeqToSet(KeysNow(ref)) \ SeqToSet(KeysNow(r1))}
@@ -197,7 +201,8 @@ Typing(p, ref, items, F, timed) ==
       THEN \* time-sensitive key: decided when it is pressed and released with nothing in between; the replay
            \* reproduces the typed gap exactly (recorded) / uses its own pace (constant): tap before T ticks, else hold
            IF ev.p /\ Len(items) >= 2 /\ items[2][1] = "e" /\ ~items[2][2].p /\ items[2][2].c = ev.c
-           THEN LET g == IF p.recorded THEN OMax(1, ev.g) ELSE ConstPace
+           /\ p.recorded      \* (with the constant pace the outcome depends on the value of the pace)
+           THEN LET g == OMax(1, ev.g)
                     k == IF g < th[1].T THEN th[1].tap ELSE th[1].hold
                     t == Typing(p, ref, Tail(Tail(items)), F + 2 * EvCost(p), timed)
                 IN [t EXCEPT !.out = <<<<"o", <<"d", k>>, 0 - 1>>, <<"o", <<"u", k>>, 0 - 1>>>> \o @]
@@ -213,8 +218,8 @@ Typing(p, ref, items, F, timed) ==
 PlayStart(m, n) ==
   IF ~MacHas(m.mac, n) THEN m
   ELSE LET x == Expand(m.p, m.mac, n, {n})
-           b == IF x.ok THEN ConstPace * (x.n + 1) + 10 ELSE ConstPace * (6 * m.p.max + 20) + 10
-       IN [m EXCEPT !.replaying = TRUE, !.repLate = @ \/ x.late, !.budget = OMin(@ + b, 400)]
+           b == IF x.ok THEN m.p.live * (x.n + 1) + 10 ELSE m.p.live * (6 * m.p.max + 20) + 10
+       IN [m EXCEPT !.replaying = TRUE, !.repLate = @ \/ x.late, !.budget = OMin(@ + b, 4000)]
 
 \* an input event arrives: what output it announces
 PlayArrive(m, isPress, c) ==
@@ -233,11 +238,11 @@ PlayArrive(m, isPress, c) ==
              ELSE IF m1.rec # <<>> /\ m1.rec[1].id = ctl[1].n THEN Lose(PlayStart(m1, ctl[1].n))       \* statement silent
              ELSE IF ~MacHas(m1.mac, ctl[1].n) THEN m1
              ELSE LET x == Expand(p, m1.mac, ctl[1].n, {ctl[1].n})
-                      t == Typing(p, m1.ref, x.items, 0, ~x.late /\ ~x.gu)
+                      t == Typing(p, m1.ref, x.items, 0, p.recorded /\ ~x.late /\ ~x.gu)
                   IN IF ~x.ok \/ ~t.ok THEN Lose(PlayStart(m1, ctl[1].n))
                      ELSE [m1 EXCEPT !.ref = t.ref, !.exp = @ \o t.out, !.replaying = TRUE, !.repLate = x.late,
                                      !.anch = 0 - 1, !.rclk = 0,
-                                     !.budget = ConstPace * (x.n + 1) + 10]
+                                     !.budget = p.live * (x.n + 1) + 10]
 
 \* r: input record [e, c, out]
 MonIn(m, r) ==
@@ -265,22 +270,24 @@ MonIn(m, r) ==
                   !.ctlp = IF isCtlPress THEN OMax(wait, m.ctlp) ELSE m.ctlp,
                   !.lastIdle = FALSE]
 
-\* [exp, ok, anch, tok]: tok = FALSE when a timed output is not on its call
-RECURSIVE Match(_, _, _, _)
-Match(exp, obs, anch, clk) ==
-  IF obs = <<>> THEN [exp |-> exp, ok |-> TRUE, anch |-> anch, tok |-> TRUE]
-  ELSE IF exp = <<>> THEN [exp |-> exp, ok |-> FALSE, anch |-> anch, tok |-> TRUE]
+\* [exp, ok, anch, tok, ra]: tok = FALSE when a timed output is not on its call; ra = a stretch was anchored now
+RECURSIVE Match(_, _, _, _, _)
+Match(exp, obs, anch, clk, ra) ==
+  IF exp # <<>> /\ Head(exp)[1] = "a"
+  THEN Match(Tail(exp), obs, IF anch = 0 - 2 THEN anch ELSE 0 - 1, 0, ra)
+  ELSE IF obs = <<>> THEN [exp |-> exp, ok |-> TRUE, anch |-> anch, tok |-> TRUE, ra |-> ra]
+  ELSE IF exp = <<>> THEN [exp |-> exp, ok |-> FALSE, anch |-> anch, tok |-> TRUE, ra |-> ra]
   ELSE LET h == Head(exp)
            e == Head(obs) IN
        IF h[1] = "o"
-       THEN IF h[2] # e THEN [exp |-> exp, ok |-> FALSE, anch |-> anch, tok |-> TRUE]
-            ELSE IF h[3] < 0 \/ anch = 0 - 2 THEN Match(Tail(exp), Tail(obs), anch, clk)
-            ELSE IF anch = 0 - 1 THEN Match(Tail(exp), Tail(obs), h[3], 0)
-            ELSE IF clk = h[3] - anch THEN Match(Tail(exp), Tail(obs), anch, clk)
-            ELSE [exp |-> exp, ok |-> TRUE, anch |-> anch, tok |-> FALSE]
+       THEN IF h[2] # e THEN [exp |-> exp, ok |-> FALSE, anch |-> anch, tok |-> TRUE, ra |-> ra]
+            ELSE IF h[3] < 0 \/ anch = 0 - 2 THEN Match(Tail(exp), Tail(obs), anch, clk, ra)
+            ELSE IF anch = 0 - 1 THEN Match(Tail(exp), Tail(obs), h[3], 0, TRUE)
+            ELSE IF clk = h[3] - anch THEN Match(Tail(exp), Tail(obs), anch, clk, ra)
+            ELSE [exp |-> exp, ok |-> TRUE, anch |-> anch, tok |-> FALSE, ra |-> ra]
        ELSE IF e \in h[2]
-            THEN Match((IF h[2] = {e} THEN <<>> ELSE <<<<"s", h[2] \ {e}>>>>) \o Tail(exp), Tail(obs), anch, clk)
-            ELSE [exp |-> exp, ok |-> FALSE, anch |-> anch, tok |-> TRUE]
+            THEN Match((IF h[2] = {e} THEN <<>> ELSE <<<<"s", h[2] \ {e}>>>>) \o Tail(exp), Tail(obs), anch, clk, ra)
+            ELSE [exp |-> exp, ok |-> FALSE, anch |-> anch, tok |-> TRUE, ra |-> ra]
 
 MonTick(m, out, idle, cb) ==
   IF m.err # "" THEN m
@@ -313,9 +320,9 @@ MonTick(m, out, idle, cb) ==
             ELSE [m1 EXCEPT !.mode = "sync", !.exp = <<>>, !.replaying = FALSE, !.repLate = FALSE, !.budget = 0,
                             !.ref = Ref!MonInit(m.p.c04)]
        ELSE LET clk == IF m.anch >= 0 THEN OMin(m.rclk + 1, 500) ELSE 0
-                x == Match(m.exp, o.eff, m.anch, clk) IN
+                x == Match(m.exp, o.eff, m.anch, clk, FALSE) IN
             IF ~x.tok
-            THEN Fail(m1, tag \o "replay pacing differs from the recorded gaps / the constant pace")
+            THEN Fail(m1, tag \o "replay pacing differs from the recorded gaps")
             ELSE IF ~x.ok
             THEN Fail(m1, IF m.replaying THEN tag \o "replay output differs from typing the recorded events again"
                           ELSE tag \o "output differs from the reference for typed keys")
@@ -330,7 +337,7 @@ MonTick(m, out, idle, cb) ==
             ELSE IF m.replaying /\ repDone /\ m.repLate THEN Lose([m1 EXCEPT !.replaying = FALSE, !.repLate = FALSE, !.budget = 0])
             ELSE [m1 EXCEPT !.exp = x.exp,
                             !.anch = IF repDone THEN 0 - 1 ELSE x.anch,
-                            !.rclk = IF repDone \/ x.anch < 0 THEN 0 ELSE IF m.anch < 0 THEN 0 ELSE clk]
+                            !.rclk = IF repDone \/ x.anch < 0 \/ x.ra THEN 0 ELSE clk]
 
 \* n silent ticks
 RECURSIVE MonSilent(_, _, _, _)
